@@ -63,6 +63,15 @@ def scenario(shape, i, j):
         ref = c12.iso_reference(s1, s2)
         if ok is not True or not ref:
             raise Bad("the two returned specifications are not isomorphic (library test: %r, reference: %r)" % (ok, ref))
+        # the purpose of the finder: a bijection can be constructed from its output and is a true bijection (C12)
+        from comb_spec_searcher.isomorphism import Bijection
+        bij = Bijection.construct(s1, s2)
+        if bij is None:
+            raise Bad("no bijection can be constructed from the finder's output")
+        if not (c12.has_nonequiv_reverse(s1) or c12.has_nonequiv_reverse(s2)):
+            mk = c12.universe(dict(shape, _side=0), i)[3]
+            c12.check_bijection(bij, starts[0][2], starts[1][2], mk, mk, "bijection from the finder's output")
+            core.observe("bijections from the finder's output checked")
     return True
 
 
